@@ -157,7 +157,10 @@ func c11(c *Ctx) {
 			continue
 		}
 		zx.SetChunkMode(mode)
+		// small doc-value chunks: concurrent visitors keep loading different chunks
+		zx.SetDVChunk([]uint32{1024, 2, 1, 3, 1024, 5}[(i/2)%6])
 		c11round(c, id, rng, g, procs, pre, a, b, ma, mb, mm, drops, wantNums)
+		zx.SetDVChunk(1024)
 		c.Distinct(fp)
 		c.Sample(map[string]interface{}{"case": id, "goroutines": g, "gomaxprocs": procs, "pre_early_stops": pre})
 		c.End()
@@ -262,7 +265,7 @@ func c11round(c *Ctx, id string, rng *rand.Rand, g, procs, pre int, a, b *model.
 						oracle.CheckIDs(r, tag, t.seg, t.m, nil)
 						r.Inc("op_ids", 1)
 					case 9:
-						oracle.CheckDocValues(r, []oracle.DVTarget{{Tag: tag, Seg: t.seg, M: t.m}}, grng, 1024, nil)
+						oracle.CheckDocValues(r, []oracle.DVTarget{{Tag: tag, Seg: t.seg, M: t.m}}, grng, uint64(zx.DVChunk()), nil)
 						r.Inc("op_docvalues", 1)
 					case 10:
 						oracle.CheckThesaurus(r, tag, t.seg, t.m, oracle.ThesOpts{UnknownNames: []string{"nothes"}, UnknownTerms: []string{"unk"}})
